@@ -204,6 +204,76 @@ def make_anno(nf_map):
     return a
 
 
+def firsts_stream(ctx: common.Ctx, rules, names):
+    """the FIRST-site helpers of the peptide graph (find_first_cleave_or_stop_site[_with_range],
+    find_first_enzymatic_cleave_site) against the full enumerations, which the sites / ranges / cstop
+    streams tie to the model: the first reported site is the first ExPASy site that is not an
+    exception site (or the first stop), with the range paired to it"""
+    from moPepGen.aa.AminoAcidSeqRecord import AminoAcidSeqRecord
+    from Bio.Seq import Seq
+    rng = ctx.rng('firsts')
+    motifs = ['CKD', 'DKD', 'CKH', 'CKY', 'CRK', 'RRH', 'RRR', 'KP', 'RP', 'WKP', 'MRP']
+    nbad = 0
+    for i in range(ctx.n(2500, 40000)):
+        name = rng.choice(names) if rng.random() < 0.4 else 'trypsin'
+        exc = rng.choice(['trypsin_exception', 'trypsin_exception', None]) if name == 'trypsin' else None
+        s = gen_protein(rng, rules[name], malformed=False, maxlen=18)
+        if name == 'trypsin' and rng.random() < 0.7:
+            # an exception motif as the FIRST K/R context of the string
+            s = ''.join(rng.choice('ADEFGHILNQSTVWY') for _ in range(rng.randint(0, 3))) + rng.choice(motifs) + s
+        if rng.random() < 0.35:
+            s = ''.join('*' if rng.random() < 0.1 else c for c in s)
+        if not s:
+            continue
+        rec = AminoAcidSeqRecord(Seq(s))
+        try:
+            sites = rec.find_all_enzymatic_cleave_sites(name, exc)
+            pairs = dict(rec.find_all_enzymatic_cleave_sites_with_ranges(name, exc))
+            stops = [k for k, c in enumerate(s) if c == '*']
+            cand = []
+            if sites:
+                cand.append((sites[0], pairs.get(sites[0])))
+            special = False
+            if stops:
+                if stops[0] == 0:
+                    if len(s) == 1:
+                        special = True
+                    else:
+                        cand.append((1, None))
+                else:
+                    cand.append((stops[0], None))
+            want_r = (-1, None) if (special or not cand) else min(cand, key=lambda x: x[0])
+            want = want_r[0]
+            got = rec.find_first_cleave_or_stop_site(name, exc)
+            got_r = rec.find_first_cleave_or_stop_site_with_range(name, exc)
+            got_r = (got_r[0], tuple(got_r[1]) if got_r[1] is not None else None)
+            want_r = (want_r[0], tuple(want_r[1]) if want_r[1] is not None else None)
+            st = rng.randrange(len(s))
+            suf = AminoAcidSeqRecord(Seq(s[st:])).find_all_enzymatic_cleave_sites(name, exc)
+            want_f = suf[0] + st if suf else -1
+            got_f = rec.find_first_enzymatic_cleave_site(name, exc, st)
+        except Exception as e:   # noqa
+            ctx.evaluated('firsts', f'{name}|{exc}|{s}', True, None)
+            if nbad < 3:
+                ctx.add_violation(f'a first-site helper raises {type(e).__name__}: {e}',
+                                  {'stream': 'firsts', 'rule': name, 'exception': exc, 'seq': s})
+            nbad += 1
+            continue
+        ctx.evaluated('firsts', f'{name}|{exc}|{s}', bool(sites or stops),
+                      {'rule': name, 'exception': exc, 'seq': s} if i < 2 else None)
+        for what, g, w in (('find_first_cleave_or_stop_site', got, want),
+                           ('find_first_cleave_or_stop_site_with_range', got_r, want_r),
+                           (f'find_first_enzymatic_cleave_site(start={st})', got_f, want_f)):
+            if g != w:
+                nbad += 1
+                if nbad <= 3:
+                    ctx.add_violation(
+                        f'{what} = {g}, but the first entry of the full enumeration (first ExPASy site that '
+                        f'is not an exception site, or the first stop) is {w}',
+                        {'stream': 'firsts', 'rule': name, 'exception': exc, 'seq': s, 'got': repr(g),
+                         'expected': repr(w)})
+
+
 def cli_pool_stream(ctx: common.Ctx, rules):
     """The pool as the COMMANDS build it: generateIndex, updateIndex and the on-the-fly
     reference loader, with the CLI spelling of the exception ('auto' included), against the
@@ -321,6 +391,50 @@ def cli_pool_stream(ctx: common.Ctx, rules):
                     real1 = f'crash:{type(e).__name__}'
                 cases.append((line, real1, {'path': 'first pool after updateIndex', **base,
                               'update_differs_in': field, 'proteins': [s for _d, _t, s in recs]}))
+            # "release 2" of the SAME annotation in the same process: the cds_start_NF tag of one
+            # transcript whose protein starts with M is toggled (ids unchanged) — the pools of the new
+            # release follow the new tags (no state of the first annotation may leak into it)
+            mtx = [tx for _d, tx, seq in recs if seq.startswith('M')]
+            if mtx:
+                tgl = rng.choice(mtx)
+                lines2 = []
+                for ln in open(case.gtf).read().split('\n'):
+                    f = ln.split('\t')
+                    if len(f) > 8 and f'transcript_id {tgl};' in f[8]:
+                        if 'tag cds_start_NF;' in f[8]:
+                            ln = ln.replace(' tag cds_start_NF;', '', 1)
+                        elif ' gene_type ' in ln:
+                            ln = ln.replace(' gene_type ', ' tag cds_start_NF; gene_type ', 1)
+                        else:
+                            ln = ln + ' tag cds_start_NF;'
+                    lines2.append(ln)
+                gtf2 = case.dir / 'release2.gtf'
+                gtf2.write_text('\n'.join(lines2))
+                nfmap2 = dict(nfmap)
+                nfmap2[tgl] = not nfmap[tgl]
+                enc2 = ';'.join(f'{int(bool(nfmap2[tx]))}:{seq}' for _d, tx, seq in recs)
+                line3 = f'C10\tpool\ttrypsin\t-\t2\t{mw_int(500.)}\t7\t25\t{enc2}'
+                a3 = argparse.Namespace(
+                    genome_fasta=case.genome, annotation_gtf=gtf2, proteome_fasta=case.proteome,
+                    gtf_symlink=False, reference_source=None, invalid_protein_as_noncoding=False, quiet=True,
+                    force=False, debug_level=1, index_dir=None, cleavage_rule='trypsin',
+                    cleavage_exception=None, miscleavage=2, min_mw=500., min_length=7, max_length=25,
+                    command='generateIndex', output_dir=case.dir / 'index_release2')
+                cp3 = params.CleavageParams(enzyme='trypsin', exception=None, miscleavage=2, min_mw=500.,
+                                            min_length=7, max_length=25)
+                try:
+                    with gen_ref.quiet():
+                        generate_index(a3)
+                        pool3 = IndexDir(a3.output_dir).load_canonical_peptides(cp3)
+                    real3 = ','.join(sorted(pool3))
+                except BaseException as e:   # noqa
+                    if isinstance(e, KeyboardInterrupt):
+                        raise
+                    real3 = f'crash:{type(e).__name__}'
+                cases.append((line3, real3, {'path': 'generateIndex on release 2 (cds_start_NF of one transcript '
+                                                     'toggled) after release 1 in the same process',
+                                             'toggled': tgl, 'now_cds_start_NF': nfmap2[tgl],
+                                             'proteins': [s_ for _d, _t, s_ in recs]}))
         finally:
             case.cleanup()
     ctx.diff_stream('cli_pool', cases, True, lambda o: o, lambda o: o != '',
@@ -508,6 +622,7 @@ def run(ctx: common.Ctx):
                                    'proteins': [(tx, s, nfmap.get(tx)) for tx, s in prots]}))
     ctx.diff_stream('pool', cases, True, lambda o: o, lambda o: o != '',
                     'canonical pool is not the digest of the proteome')
+    firsts_stream(ctx, rules, names)
     cli_pool_stream(ctx, rules)
     ctx.assumptions += [
         'Python re / regex engines (validated exhaustively against Re.matchAt on the bounded strings above)',
